@@ -20,7 +20,7 @@ EXPLANATION = (
     "initialisation is either passed on unchanged as an argument (then checked in the callee) or control dependent on a "
     "test of its switch; application efficiency may additionally appear as a factor of the irrigation depth. C20.b "
     "(neutral values): polynomial normal forms with the parameter fixed at its neutral value show mulch factor 0 or "
-    "mulch cover 0 give EsPotMul == EsPot and Irr = 0 removes the efficiency term from infiltration; interprocedural "
+    "mulch cover 0 give EsPotMul == EsPot - and the potential evaporation finally returned has the same normal form as with mulches off, so the switch does not change how the mulch and partial-wetting adjustments are combined - and Irr = 0 removes the efficiency term from infiltration; interprocedural "
     "constant propagation shows depth = 0 (method 5), MaxIrr = 0 and - with the seasonal counter >= 0, A-19 - a seasonal maximum of 0 "
     "give Irr == 0 for every strategy that applies water. C20.c (stated default): the block "
     "executed only when the harvest date is unset passes no user-owned object to a callee that writes it - the default "
@@ -231,6 +231,26 @@ def rule_b(chk, prog):
                     chk.violation("C20.b", where, construct, f"with the neutral value the mulched potential evaporation is {A.text(got)[:100]}", loc=se.loc(a))
         if hits != 1:
             chk.error(f"C20.b: expected one mulch adjustment statement, found {hits}")
+        # ... and the potential evaporation the function finally returns equals the one it returns with mulches off (same normal form):
+        # how the mulched value is combined with the partial-wetting adjustment must not depend on the switch
+        rets = [r for r in walk_no_nested(se.node) if isinstance(r, ast.Return) and isinstance(r.value, ast.Tuple)]
+        from ..cp import step_local
+        tg = [n.targets[0].elts for n in walk_no_nested(step.node) if isinstance(n, ast.Assign) and n.value is call and isinstance(n.targets[0], ast.Tuple)][0]
+        L_pot = step_local(prog, "col:EsPot")
+        pos = next(i for i, t in enumerate(tg) if isinstance(t, ast.Name) and t.id == L_pot)
+        off = Sym(prog, se, consts={f_mul: False})
+        import re as _re
+        def canon(poly):
+            # join / loop atoms carry node numbers; compare modulo them
+            return _re.sub(r"@(join|loop)\d+~\d+", "@j", A.text(poly))
+        for (n1, st1), (n2, st2) in zip(sym.at_return(), off.at_return()):
+            v_on, v_off = sym.nf(rets[0].value.elts[pos], st1), off.nf(rets[0].value.elts[pos], st2)
+            construct = f"returned potential evaporation | mulches on, {label} vs mulches off"
+            if A.equal(v_on, v_off) or canon(v_on) == canon(v_off):
+                chk.ok("C20.b", where, construct, f"same normal form: {A.text(v_on)[:80]}")
+            else:
+                chk.violation("C20.b", where, construct, f"with the neutral mulch setting the function returns {A.text(v_on)[:90]} but with mulches off "
+                              f"{A.text(v_off)[:90]}: the switch itself changes how the adjustments are combined", loc=se.loc(n1.ast))
     # Irr = 0 removes the efficiency term
     inf = prog.find_func("infiltration")
     chk.fn(inf.key)
